@@ -114,6 +114,7 @@ func c40RunSeq(args [][]byte) *c40Seq {
 		lb.HealthCheck = func(_ *fasthttp.Request, _ *fasthttp.Response, _ error) bool { return w.healthy }
 	}
 	cfgEmpty := true
+	var cfgIDs []int
 	if len(args[1]) > 0 {
 		for _, e := range strings.Split(string(args[1]), ",") {
 			ip := strings.SplitN(e, ":", 2)
@@ -123,10 +124,39 @@ func c40RunSeq(args [][]byte) *c40Seq {
 			id, _ := strconv.Atoi(ip[0])
 			p, _ := strconv.ParseInt(ip[1], 10, 64)
 			lb.Clients = append(lb.Clients, fake(id, p))
+			cfgIDs = append(cfgIDs, id)
 			cfgEmpty = false
 		}
 	}
 	inited := false
+	// the harness' own record of who is registered (independent of the Lean model): clients added with AddClient, plus
+	// the configured Clients from the first routing call on, minus what a RemoveClients callback asked to remove
+	var members []int
+	sameMembers := func(op string) {
+		want := map[int]int{}
+		for _, id := range members {
+			want[id]++
+		}
+		for _, r := range c40Snapshot(lb) {
+			want[r.id]--
+		}
+		for id, d := range want {
+			if d > 0 {
+				bad("registered-client-dropped", "after %s client %d is registered (added/configured and never removed) but the balancer no longer has it; registered %v, balancer has %s", op, id, members, c40RenderSnap(c40Snapshot(lb)))
+			}
+			if d < 0 {
+				bad("removed-client-still-registered", "after %s the balancer still has client %d although it was removed (or never added); registered %v, balancer has %s", op, id, members, c40RenderSnap(c40Snapshot(lb)))
+			}
+		}
+	}
+	isMember := func(id int) bool {
+		for _, m := range members {
+			if m == id {
+				return true
+			}
+		}
+		return false
+	}
 	var req fasthttp.Request
 	var resp fasthttp.Response
 	checkSnap := func(rows []c40Row) {
@@ -144,6 +174,9 @@ func c40RunSeq(args [][]byte) *c40Seq {
 				if !(cfgEmpty && !inited) {
 					bad("call-panicked", "routing call panicked although Clients was configured / init had run: %v", e)
 				}
+			}
+			if !inited && !panicked {
+				members = append(members, cfgIDs...) // the lazy init registers the configured clients
 			}
 			inited = true
 		}()
@@ -172,7 +205,12 @@ func c40RunSeq(args [][]byte) *c40Seq {
 			}
 			id, _ := strconv.Atoi(ip[0])
 			p, _ := strconv.ParseInt(ip[1], 10, 64)
-			res.obs = append(res.obs, fmt.Sprintf("A:%d", lb.AddClient(fake(id, p))))
+			nAdd := lb.AddClient(fake(id, p))
+			members = append(members, id)
+			if nAdd != len(members) {
+				bad("add-count-wrong", "AddClient returned %d, %d clients are registered: %v", nAdd, len(members), members)
+			}
+			res.obs = append(res.obs, fmt.Sprintf("A:%d", nAdd))
 		case 'R':
 			ids := map[int]bool{}
 			if rest != "" {
@@ -181,7 +219,27 @@ func c40RunSeq(args [][]byte) *c40Seq {
 					ids[id] = true
 				}
 			}
-			n := lb.RemoveClients(func(c fasthttp.BalancingClient) bool { return ids[c.(*c40Fake).id] })
+			asked := map[int]int{}
+			n := lb.RemoveClients(func(c fasthttp.BalancingClient) bool {
+				asked[c.(*c40Fake).id]++
+				return ids[c.(*c40Fake).id]
+			})
+			var kept []int
+			for _, id := range members {
+				asked[id]--
+				if !ids[id] {
+					kept = append(kept, id)
+				}
+			}
+			for id, d := range asked {
+				if d < 0 {
+					bad("remove-callback-skipped-client", "RemoveClients did not pass registered client %d to the callback; registered %v", id, members)
+				}
+			}
+			if n != len(kept) {
+				bad("remove-count-differs-from-kept", "RemoveClients(%q) returned %d, the callback kept %d of the registered clients %v", rest, n, len(kept), members)
+			}
+			members = kept
 			res.obs = append(res.obs, fmt.Sprintf("R:%d", n))
 		case 'G':
 			idx := -2
@@ -212,6 +270,12 @@ func c40RunSeq(args [][]byte) *c40Seq {
 				break
 			}
 			w.onCall = nil
+			if w.calledID >= 0 && !isMember(w.calledID) {
+				bad("call-routed-to-removed-client", "DoDeadline was served by client %d, which is not registered (removed or never added); registered %v", w.calledID, members)
+			}
+			if w.calledID < 0 && len(members) != 0 {
+				bad("no-client-called", "DoDeadline called no client although %v are registered (err %v)", members, err)
+			}
 			switch {
 			case w.calledID < 0:
 				if len(fasthttp.VerifLBClients(lb)) != 0 {
@@ -268,6 +332,7 @@ func c40RunSeq(args [][]byte) *c40Seq {
 			return nil
 		}
 		checkSnap(c40Snapshot(lb))
+		sameMembers("op " + string(tok))
 	}
 	rows := c40Snapshot(lb)
 	checkSnap(rows)
@@ -290,6 +355,7 @@ func init() {
 		Parallel:   true,
 		Exhaustive: func(t string) bool { return t == "thorough" },
 		Assumptions: []string{
+			"membership as the monitors see it: clients added with AddClient, plus the configured Clients from the first routing call on (lazy init), minus what a RemoveClients callback asked to remove",
 			"LBClient.Clients is non-empty at the first call (documented precondition; the empty case panics by design and is modelled and checked as such)",
 			"fewer than 2^32-301 goroutines are simultaneously inside incPenalty of one client (hypothesis BoundedRun of the theorems)",
 			"get reads each client's pending/penalty/total once under the read lock; the values are not a consistent snapshot under concurrent calls (statement is about the values read)",
@@ -1000,6 +1066,29 @@ func c40Race(cfgS, parkS, rmS, addS string) *Case {
 		obs = append(obs, fmt.Sprintf("D:%d:ok", served))
 	}
 	obs = append(obs, fmt.Sprintf("R:%d", mem.nRemoved))
+	keptN := len(after) - len(add)
+	if spec == nil && mem.nRemoved != keptN {
+		spec = &Verdict{VSpec, "remove-count-differs-from-kept", fmt.Sprintf("RemoveClients returned %d, the callback kept %d clients; %s", mem.nRemoved, keptN, what)}
+	}
+	if spec == nil && len(add) == 1 && mem.nAdded != keptN+1 {
+		spec = &Verdict{VSpec, "add-count-wrong", fmt.Sprintf("AddClient returned %d, %d clients are registered; %s", mem.nAdded, keptN+1, what)}
+	}
+	if spec == nil {
+		want := map[int]int{}
+		for _, m := range after {
+			want[m.id]++
+		}
+		for _, c := range fasthttp.VerifLBClients(lb) {
+			want[fasthttp.VerifLBWrapped(c).(*c40RaceClient).id]--
+		}
+		for id, d := range want {
+			if d > 0 {
+				spec = &Verdict{VSpec, "registered-client-dropped", fmt.Sprintf("client %d is registered but the balancer no longer has it; %s", id, what)}
+			} else if d < 0 {
+				spec = &Verdict{VSpec, "removed-client-still-registered", fmt.Sprintf("the balancer still has client %d although it was removed; %s", id, what)}
+			}
+		}
+	}
 	toks := [][]byte{B("e"), B(cfgS), B("G"), B("D1"), B("R" + rmS)}
 	if len(add) == 1 {
 		obs = append(obs, fmt.Sprintf("A:%d", mem.nAdded))
